@@ -849,9 +849,9 @@ def ruleOf (cls f : String) : Option Rule :=
   | fr :: _ => some fr.2
   | [] => none
 
-/-- fields whose validator looks at `self.<field>` instead of the value being assigned (as in /repo) -/
-def assignChecksOld (cls f : String) : Bool :=
-  (cls == "PreprocessingConfig" && f == "scale") || (cls == "ReduceLROnPlateauConfig" && f == "min_lr")
+/-- fields whose validator looks at `self.<field>` instead of the value being assigned: none any more
+(F-C20h, fixed: `validate_scale(value)` / `validate_min_lr(value)`) -/
+def assignChecksOld (_cls _f : String) : Bool := false
 
 /-- verdict of the field validator when `v` is assigned over `old` -/
 def assignVerdict (checksOld : Bool) (r : Option Rule) (old v : Cfg) : Except String Unit :=
